@@ -549,8 +549,10 @@ theorem stamped_closed (hT : now ≤ T) (arm : Arm) (classic : Bool) :
 
 end ops
 
-/-- **One event whose clock is `≤ T` keeps every stamp `≤ T`** (all seven event constructors; the three
-configuration events carry no clock and touch no link). -/
+/-- **One event whose clock is `≤ T` keeps every stamp `≤ T`** (every event constructor, `Ev.reload` included — its
+new links are stamped with the reload's clock, `stamped_newUplink`; the configuration / injection events
+`setCfg`, `crit`, `failNext`, `failBind` carry no clock and touch no link, `stamp` and `syncTimeout` carry no clock
+and write no stamp). -/
 theorem stamped_step (T : Nat) (s : Sys F) (e : Ev) (hT : evNow e ≤ T) (h : All (Stamped T) s.links) :
     All (Stamped T) (step s e).1.links :=
   step_all s e (fun _ _ => stamped_closed hT _ _) h
